@@ -213,31 +213,60 @@ where
         I: IntoIterator<Item = FrOf<Self::Hasher>>,
         J: IntoIterator<Item = usize>,
     {
-        let indices = indices.into_iter().collect::<Vec<_>>();
-        let min_index = *indices.first().unwrap();
         let leaves_vec = leaves.into_iter().collect::<Vec<_>>();
-
-        let max_index = start + leaves_vec.len();
-
-        let mut set_values = vec![Self::Hasher::default_leaf(); max_index - min_index];
-
-        for i in min_index..start {
-            if !indices.contains(&i) {
-                let value = self.get(i)?;
-                set_values[i - min_index] = value;
-            }
+        let indices = indices.into_iter().collect::<Vec<_>>();
+        if leaves_vec.is_empty() && indices.is_empty() {
+            return Err(Report::msg("no leaves or indices to be removed"));
+        }
+        let end = match start.checked_add(leaves_vec.len()) {
+            Some(end) if end <= self.capacity() => end,
+            _ => return Err(Report::msg("provided leaves do not fit in the tree")),
+        };
+        if indices.iter().any(|&i| i >= self.capacity()) {
+            return Err(Report::msg("index to remove exceeds set size"));
         }
 
-        for i in 0..leaves_vec.len() {
-            set_values[start - min_index + i] = leaves_vec[i];
+        // positions at or above next_index already hold the default leaf
+        let removed = indices
+            .into_iter()
+            .filter(|&i| i < self.next_index)
+            .collect::<Vec<_>>();
+        // one contiguous range [lo, hi) covering the removed positions and the written ones
+        let (mut lo, mut hi) = if leaves_vec.is_empty() {
+            (usize::MAX, 0)
+        } else {
+            (start, end)
+        };
+        for &i in removed.iter() {
+            lo = lo.min(i);
+            hi = hi.max(i + 1);
+        }
+        if lo >= hi {
+            // nothing to remove below next_index and nothing to write
+            return Ok(());
         }
 
-        for i in indices {
-            self.cached_leaves_indices[i] = 0;
+        // removed positions are reset first, then the leaves are written;
+        // every other position in the range keeps its value and its flag
+        let mut set_values = Vec::with_capacity(hi - lo);
+        let mut flags = Vec::with_capacity(hi - lo);
+        for i in lo..hi {
+            set_values.push(self.get(i)?);
+            flags.push(self.cached_leaves_indices[i]);
+        }
+        for &i in removed.iter() {
+            set_values[i - lo] = Self::Hasher::default_leaf();
+            flags[i - lo] = 0;
+        }
+        for (i, leaf) in leaves_vec.into_iter().enumerate() {
+            set_values[start - lo + i] = leaf;
+            flags[start - lo + i] = 1;
         }
 
-        self.set_range(start, set_values.into_iter())
-            .map_err(|e| Report::msg(e.to_string()))
+        self.set_range(lo, set_values.into_iter())
+            .map_err(|e| Report::msg(e.to_string()))?;
+        self.cached_leaves_indices[lo..hi].copy_from_slice(&flags);
+        Ok(())
     }
 
     // Sets a leaf at the next available index
